@@ -183,7 +183,7 @@ def classify(d: Any, text: str | None, src: Any) -> str | None:
     from poetry.core.packages.vcs_dependency import VCSDependency
     if d is not None and not d.is_direct_origin() and GD.looks_like_archive(d.pretty_name):
         return K_ARCHIVE
-    if d is not None and d.in_extras and "extra" not in str(d.marker) and not (isinstance(src, dict) and (src.get("ctor") or {}).get("in_extras")):
+    if d is not None and d.in_extras and not G.mentions_extra(str(d.marker)) and not (isinstance(src, dict) and (src.get("ctor") or {}).get("in_extras")):
         return K_INEXTRAS
     if d is not None and not d.is_direct_origin() and text and re.search(r"[<>]=?[^,;)\s]*\+", text.split(";")[0]):
         return K_LOCAL
@@ -250,7 +250,7 @@ def oracle(ctx: core.Ctx, d: Any, witness: dict[str, Any], envs: list[dict[str, 
             bad = f"constraint {d.constraint} -> {d2.constraint}: version {probes[k]} {b1[k]} -> {b2[k]}"
     if bad is None:
         t1, t2 = MC.split_bits(MC.truth(d.marker, envs)), MC.split_bits(MC.truth(d2.marker, envs))
-        if c and c.get("in_extras") and "extra" not in str(d.marker):
+        if c and c.get("in_extras") and not G.mentions_extra(str(d.marker)):
             # recorded membership in extras: the dependency applies when its marker holds and one of these extras is active
             t1 = [x if x != "1" else ("1" if any(e in env.get("extra", []) for e in d.in_extras) else "0") for x, env in zip(t1, envs)]
         k = next((i for i, (x, y) in enumerate(zip(t1, t2)) if x != y), None)
